@@ -215,7 +215,7 @@ def _integral(ring):
 
 
 # /repo commits that repaired the defect (frag/C04.fix-<n>.diff); None = repair proposed, not applied yet (finding stays `known`)
-FIX = {1: "964499d", 2: "6fd4ec8", 3: "0c8663a", 4: "6534350", 5: "e1cb767", 6: "3b7f5ec", 7: "d8dba27", 8: None}
+FIX = {1: "964499d", 2: "6fd4ec8", 3: "0c8663a", 4: "6534350", 5: "e1cb767", 6: "3b7f5ec", 7: "d8dba27", 8: "5a5d83b"}
 
 
 def code_site(ring, src):
